@@ -368,24 +368,39 @@ func writePairwiseAlignment(p string, w int, cPair chan alignPair, cWriteDone ch
 	var err error
 
 	if p == "stdout" {
-		for AP := range cPair {
-			if !omitRef {
-				_, err = fmt.Fprintln(os.Stdout, ">"+AP.refname)
+		// the pairs arrive in the order the workers finish them, so they are held back
+		// until every earlier pair has been written, to keep the order of the input
+		outputMap := make(map[int]alignPair)
+		counter := 0
+
+		for incoming := range cPair {
+			outputMap[incoming.idx] = incoming
+
+			for {
+				AP, ok := outputMap[counter]
+				if !ok {
+					break
+				}
+				if !omitRef {
+					_, err = fmt.Fprintln(os.Stdout, ">"+AP.refname)
+					if err != nil {
+						cErr <- err
+					}
+					_, err = fmt.Fprint(os.Stdout, wrap(string(AP.ref), w))
+					if err != nil {
+						cErr <- err
+					}
+				}
+				_, err = fmt.Fprintln(os.Stdout, ">"+AP.queryname)
 				if err != nil {
 					cErr <- err
 				}
-				_, err = fmt.Fprint(os.Stdout, wrap(string(AP.ref), w))
+				_, err = fmt.Fprint(os.Stdout, wrap(string(AP.query), w))
 				if err != nil {
 					cErr <- err
 				}
-			}
-			_, err = fmt.Fprintln(os.Stdout, ">"+AP.queryname)
-			if err != nil {
-				cErr <- err
-			}
-			_, err = fmt.Fprint(os.Stdout, wrap(string(AP.query), w))
-			if err != nil {
-				cErr <- err
+				delete(outputMap, counter)
+				counter++
 			}
 		}
 	} else {
